@@ -21,7 +21,9 @@ RULE = (
     "realised as n distinct sound events in input order and a symmetric comparison function that looks the "
     "unordered pair up in the edge set and records its calls; one call of group_sound_events per graph. "
     "A case is non-trivial when the graph has at least one edge and at least one non-edge (so both answers of "
-    "the comparison function occur); distinct = distinct (n, mask). Outcome class = n and the multiset of "
+    "the comparison function occur); distinct = distinct (n, mask, geometry pattern). For graphs on up to 5 (quick) / 6 "
+    "(thorough) nodes every graph is additionally run with the geometry removed from the even-positioned events and from the "
+    "first event only (grouping is defined by the comparison function, not by geometries). Outcome class = n and the multiset of "
     "component sizes returned."
 )
 ASSUMPTIONS = [
@@ -77,6 +79,24 @@ def events():
     return _EVENTS
 
 
+_VARIANTS = {}
+PATTERNS = ("all", "even_none", "first_none")
+
+
+def events_variant(pattern):
+    """The same events (same uuids), with the geometry removed from some of them: a sound event may have no geometry, and
+    grouping is defined by the comparison function alone."""
+    if pattern == "all":
+        return events()
+    if pattern not in _VARIANTS:
+        drop = (lambda i: i % 2 == 0) if pattern == "even_none" else (lambda i: i == 0)
+        _VARIANTS[pattern] = [
+            data.SoundEvent(uuid=se.uuid, recording=se.recording, geometry=None if drop(i) else se.geometry)
+            for i, se in enumerate(events())
+        ]
+    return _VARIANTS[pattern]
+
+
 # ---------------------------------------------------------------- model
 def components(n, edges):
     """Union-find; returns the components as a set of increasing position tuples."""
@@ -99,17 +119,20 @@ def components(n, edges):
 
 
 # ---------------------------------------------------------------- blocks / cases
+PATTERN_NMAX = {"quick": 5, "thorough": 6}  # geometry-less variants are run for graphs up to this many nodes
+
+
 def blocks(tier):
     nmax = NMAX[tier]
     out = []
     # n <= 5: 1 + 1 + 2 + 8 + 64 + 1024 graphs
-    out.append({"n": [0, 1, 2, 3, 4], "lo": 0, "hi": None})
+    out.append({"n": [0, 1, 2, 3, 4], "lo": 0, "hi": None, "tier": tier})
     for lo in range(0, graphs_size(5), 256):
-        out.append({"n": [5], "lo": lo, "hi": lo + 256})
+        out.append({"n": [5], "lo": lo, "hi": lo + 256, "tier": tier})
     for n in range(6, nmax + 1):
         step = BLOCK[n]
         for lo in range(0, graphs_size(n), step):
-            out.append({"n": [n], "lo": lo, "hi": lo + step})
+            out.append({"n": [n], "lo": lo, "hi": lo + step, "tier": tier})
     return out
 
 
@@ -121,6 +144,9 @@ def run_block(block, rec):
         hi = total if block["hi"] is None else min(block["hi"], total)
         for mask in range(lo, hi):
             rec.add(run_case({"n": n, "mask": mask}))
+            if n <= PATTERN_NMAX[block.get("tier", "quick")] and n >= 1:
+                for pattern in PATTERNS[1:]:
+                    rec.add(run_case({"n": n, "mask": mask, "geom": pattern}))
 
 
 def _cls(kind, **kw):
@@ -132,7 +158,7 @@ def _cls(kind, **kw):
 def run_case(case):
     out = Out(case)
     n, mask = case["n"], case["mask"]
-    evs = events()[:n]
+    evs = events_variant(case.get("geom", "all"))[:n]
     pos = _POS
     edges = graph_from_mask(n, mask)
     edge_set = set(edges)
